@@ -189,7 +189,9 @@ Section Top3.
     Hypothesis HD : forall f p j pp es n, Ctx f -> SPN p -> resolve_ino c f p true = inl j ->
       dir_of f j = Some (pp, es) -> In n (map fst es) -> SP (join2 p n).
     Hypothesis HN : forall p, SPN p -> SP p.
-    Hypothesis HE : forall f src follow sf, Ctx f -> copy_root_path c f src_root src follow = inl sf -> SP sf.
+    (* which source arguments (with which FollowLinks) are considered *)
+    Variable Psrc : bytes -> bool -> Prop.
+    Hypothesis HE : forall f src follow sf, Ctx f -> Psrc src follow -> copy_root_path c f src_root src follow = inl sf -> SP sf.
     Notation rok := (CopyRecP.rok R).
     Notation pok := (CopyRecP.pok SPN).
 
@@ -211,18 +213,19 @@ Section Top3.
 
   Lemma copy_sources_spec_r fuel o sl dst : forall srcs batches s s' res batches',
     Ctx (s_fs s) -> lok s -> s_parents s = [] -> batches_ok (s_fs s) batches -> Forall (fun src => has_nul src = false) srcs ->
+    Forall (fun src => Psrc src (o_follow o)) srcs ->
     rok s ->
     copy_sources fuel c o sl src_root (render dcs) dst srcs batches s = (s', res, batches') ->
     (Ctx (s_fs s') /\ batches_ok (s_fs s') batches') /\ rok s'.
   Proof.
-    induction srcs as [|src srcs IH]; intros batches s s' res batches' C L Pa Hb Hs Rk H.
+    induction srcs as [|src srcs IH]; intros batches s s' res batches' C L Pa Hb Hs Hps Rk H.
     - cbn [copy_sources] in H. inversion H; subst. auto.
-    - cbn [copy_sources] in H. inversion Hs as [|? ? Hsn Hrest]; subst.
+    - cbn [copy_sources] in H. inversion Hs as [|? ? Hsn Hrest]; subst. inversion Hps as [|? ? Hp1 Hprest]; subst.
       (* the step: two RootPath calls (reads only), then prepareTargetDir *)
       rewrite bind_run in H. unfold get_fs at 1 in H.
       destruct (copy_root_path c (s_fs s) src_root src (o_follow o)) as [sf|e] eqn:Esf;
         [|cbn [lift_rp fail] in H; inversion H; subst; auto].
-      pose proof (HE _ _ _ _ C Esf) as Hsp.
+      pose proof (HE _ _ _ _ C Hp1 Esf) as Hsp.
       cbn [lift_rp] in H. rewrite bind_run in H. cbn [ret] in H. rewrite bind_run in H. unfold get_fs at 1 in H.
       destruct (root_path c (s_fs s) (render dcs) (clean dst)) as [dest|e] eqn:Ed;
         [|cbn [lift_rp fail] in H; inversion H; subst; auto].
@@ -272,10 +275,11 @@ Section Top3.
   Lemma copy_top_spec_r fuel o osl src dst matches s s' res :
     Ctx (s_fs s) -> lok s -> s_parents s = [] -> has_nul src = false ->
     (forall l, matches = Some l -> Forall (fun m => has_nul m = false) l) ->
+    (matches = None -> Psrc src (o_follow o)) -> (forall l, matches = Some l -> Forall (fun m => Psrc m (o_follow o)) l) ->
     rok s ->
     copy_top fuel c o osl src_root src (render dcs) dst matches s = (s', res) -> Ctx (s_fs s') /\ rok s'.
   Proof.
-    intros C L Pa Hsn Hm Rk H. unfold copy_top in H.
+    intros C L Pa Hsn Hm Hp0 Hpm Rk H. unfold copy_top in H.
     set (ensure := match split_path dst with (d, fl) => if nonempty fl && negb (bytes_eqb fl s_dot) && negb (bytes_eqb fl s_dotdot) then d else dst end) in H.
     (* the first MkdirAll *)
     assert (Hpre : forall s1 r1,
@@ -317,20 +321,20 @@ Section Top3.
     { intros bs2 s2 C2 B2 Rk2. split; [apply run_fixes_spec; auto|].
       destruct (run_fixes c (render dcs) (o_utime o) bs2 s2) as [s3 r3] eqn:E3. cbn [fst].
       eapply rok_nr; [apply NR_run_fixes|exact E3|exact Rk2]. }
-    assert (Hloop : forall sl srcs, Forall (fun m => has_nul m = false) srcs -> forall s2 res2 bs2,
+    assert (Hloop : forall sl srcs, Forall (fun m => has_nul m = false) srcs -> Forall (fun m => Psrc m (o_follow o)) srcs -> forall s2 res2 bs2,
               copy_sources fuel c o sl src_root (render dcs) dst srcs batches0 s1 = (s2, res2, bs2) ->
               Ctx (s_fs (fst (run_fixes c (render dcs) (o_utime o) bs2 s2))) /\ rok (fst (run_fixes c (render dcs) (o_utime o) bs2 s2))).
-    { intros sl srcs Hs s2 res2 bs2 E.
-      destruct (copy_sources_spec_r fuel o sl dst srcs batches0 s1 s2 res2 bs2 C1 L1 Pa1 B1 Hs Rk1 E) as ((C2 & B2) & Rk2).
+    { intros sl srcs Hs Hps s2 res2 bs2 E.
+      destruct (copy_sources_spec_r fuel o sl dst srcs batches0 s1 s2 res2 bs2 C1 L1 Pa1 B1 Hs Hps Rk1 E) as ((C2 & B2) & Rk2).
       apply Hfix; auto. }
     destruct osl as [sl|].
     2:{ (* invalid patterns *) destruct matches as [[|m ms]|]; inversion H; subst; apply Hfix; auto. }
     destruct matches as [[|m ms]|].
     - (* no match *) inversion H; subst. apply Hfix; auto.
     - destruct (copy_sources fuel c o sl src_root (render dcs) dst (m :: ms) batches0 s1) as [[s2 res2] bs2] eqn:E2.
-      inversion H; subst. eapply (Hloop sl (m :: ms)); [apply Hm; reflexivity|exact E2].
+      inversion H; subst. eapply (Hloop sl (m :: ms)); [apply Hm; reflexivity|apply Hpm; reflexivity|exact E2].
     - destruct (copy_sources fuel c o sl src_root (render dcs) dst [src] batches0 s1) as [[s2 res2] bs2] eqn:E2.
-      inversion H; subst. eapply (Hloop sl [src]); [constructor; auto|exact E2].
+      inversion H; subst. eapply (Hloop sl [src]); [constructor; auto|constructor; auto|exact E2].
   Qed.
   End Reads.
 
@@ -341,6 +345,8 @@ Section Top3.
   Proof.
     intros C L Pa Hsn Hm H.
     pose proof (copy_top_spec_r (fun _ => True) (fun _ => True) (fun _ => True)) as G.
-    eapply G; eauto; try (intros; exact I). intros i _. exact I.
+    eapply G with (Psrc := fun _ _ => True); eauto; try (intros; exact I).
+    - intros l _. apply Forall_forall. intros; exact I.
+    - intros i _. exact I.
   Qed.
 End Top3.
